@@ -221,7 +221,7 @@ def composition_problems(deck, t4, amount, base):
 
 def tasks_for(tier):
     base = seed() * 982451653
-    return [(base + i, 1 + i % 3) for i in range(64 if tier == 'quick' else 800)]
+    return [(base + i, 1 + i % 3) for i in range(64 if tier == 'quick' else 3000)]
 
 
 def run(tier):
